@@ -209,6 +209,9 @@ func (p *Program) Valid(f *File, t *Type, v *Val) bool {
 	if v == nil {
 		return true
 	}
+	if v.Bad {
+		return false
+	}
 	rt, d, g := p.Resolve(f, t)
 	if d != nil && d.Kind != "enum" {
 		n := 0
